@@ -90,6 +90,9 @@ struct Lift {
     params: Vec<(String, String, String)>,
     #[serde(default)]
     generics: String,
+    /// statements placed before the outlined range (e.g. `let mut x = x;` — verus! has no `mut` parameters)
+    #[serde(default)]
+    prologue: String,
 }
 
 #[derive(Deserialize, Default, Clone)]
@@ -1364,7 +1367,35 @@ fn main() {
         if find_item(&file, &it.path).is_some() {
             continue; // already lifted (or the repository has such a method itself)
         }
-        let Some(Found::Method(imp, m)) = find_item(&file, &l.from) else {
+        let found = find_item(&file, &l.from);
+        // outline mode also works on free functions
+        if let (Some(Found::Fn(f)), Some(_)) = (&found, &l.after) {
+            let after = l.after.as_ref().unwrap();
+            let rx = Regex::new(after).unwrap_or_else(|er| fail(&job.report, Report::default(), format!("bad lift regex {}: {}", after, er)));
+            let name = it.path.trim().strip_prefix("fn ").unwrap_or("pv_outlined").trim().to_string();
+            let stmts = &f.block.stmts;
+            let Some(idx) = stmts.iter().position(|st| { let (a, b) = br(st.span()); rx.is_match(&text[a..b]) }) else {
+                fail(&job.report, rep, format!("lost anchor: no statement of `{}` matches {:?}", l.from, after));
+            };
+            if idx + 1 >= stmts.len() {
+                fail(&job.report, rep, format!("lost anchor: nothing follows the statement matching {:?} in `{}`", after, l.from));
+            }
+            let (ts, _) = br(stmts[idx + 1].span());
+            let (_, te) = br(stmts[stmts.len() - 1].span());
+            let tail = text[ts..te].to_string();
+            let ret = match &f.sig.output { syn::ReturnType::Default => String::new(), syn::ReturnType::Type(_, t) => { let (a, b) = br(t.span()); format!(" -> {}", &text[a..b]) } };
+            let is_async = f.sig.asyncness.is_some();
+            let decl: Vec<String> = l.params.iter().map(|(n, t, _)| format!("{}: {}", n, t)).collect();
+            let args: Vec<String> = l.params.iter().map(|(_, _, a)| a.clone()).collect();
+            let func = format!("\n\n// N22: the statements of `{}` after `{}` (verbatim), outlined\n#[allow(clippy::too_many_arguments)]\n{}fn {}{}({}){} {{\n    {}\n}}\n",
+                l.from, after, if is_async { "async " } else { "" }, name, l.generics, decl.join(", "), ret, format!("{}\n    {}", l.prologue, tail));
+            let call = format!("{}({}){}", name, args.join(", "), if is_async { ".await" } else { "" });
+            rep.rules.push(RuleApp { rule: "N22 statement range outlined into a free function".to_string(), item: l.from.clone(), line: line_of(&text, ts), old: text[ts..te].to_string(), new: call.clone() });
+            text.push_str(&func);
+            text.replace_range(ts..te, &call);
+            continue;
+        }
+        let Some(Found::Method(imp, m)) = found else {
             fail(&job.report, rep, format!("lost anchor: item `{}` not found in {}", l.from, job.src));
         };
         if let Some(after) = &l.after {
